@@ -55,7 +55,7 @@ def gen_samples(rng, leaves=LEAVES):
     samples = []
     for i in range(n):
         s = {}
-        for name, (v, leaf) in fields.items():
+        for name, (v, leaf) in [kv for kv in fields.items() if kv[0] != "dict_leaf"]:
             r = rng.random()
             if i > 0 and r < 0.15:
                 continue                       # missing -> Optional
@@ -64,7 +64,9 @@ def gen_samples(rng, leaves=LEAVES):
                 continue
             s[name] = v if i == 0 else same_shape(rng, v, leaf)
         s["plain"] = rng.choice(["x", 1, None, [1, 2], {"k": "v"}])
-        s["dict_field"] = {"u": rng.choice(LEAVES[0]), "w": rng.choice(LEAVES[0])}
+        dl = leaves[-1] if i == 0 or "dict_leaf" not in fields else fields["dict_leaf"]
+        fields["dict_leaf"] = dl
+        s["dict_field"] = {"u": rng.choice(dl), "w": rng.choice(dl)}
         samples.append(s)
     return samples
 
@@ -169,8 +171,14 @@ def check_case(samples, job, registry):
         kwargs = {}
         for k, v in s.items():
             kwargs[prepare_label(k, convert_unicode=job.get("convertUnicode", True), to_snake_case=True)] = v
+        import copy as _copy
+        before = _copy.deepcopy(kwargs)
         try:
             obj = cls(**kwargs)
+            if kwargs != before or repr(kwargs) != repr(before):
+                return {"kind": "sample-mutated-by-construction", "sample": s,
+                        "observed": f"the caller's data changed from {before!r} to {kwargs!r}"[:600], "text": text[:3000]}
+            cls(**kwargs)                   # the same sample object builds a second instance just as well
         except stages.TooCostly:
             raise
         except Exception as e:  # noqa
